@@ -1,6 +1,6 @@
 SPECIFICATION FairSpec
 CONSTANTS RecvDeadline = TRUE
-          ArtimEveryLoop = TRUE
+          ArtimEveryLoop = FALSE
           ServerHandshakeDeadline = TRUE
           Dribbles = 2
 INVARIANT TypeOK
